@@ -39,8 +39,8 @@ kquiesce(void)
 		if (env_run_callbacks() == 0)
 			break;
 	}
-	CHECK(env_callbacks_pending() == 0, "library reaches quiescence (no callback storm)");
-	CHECK(env_locks_held == 0, "no lock is held at a quiescent point");
+	SCHECK(env_callbacks_pending() == 0, "library reaches quiescence (no callback storm)");
+	SCHECK(env_locks_held == 0, "no lock is held at a quiescent point");
 	kwait_check();
 }
 
@@ -49,7 +49,11 @@ static nni_msg *
 kmsg(size_t len)
 {
 	nni_msg *m = NULL;
+	int      armed = env_msg_fail_at; /* an armed allocation fault is meant for the library, not for the harness */
+	env_msg_fail_at = -1;
 	nni_msg_alloc(&m, len);
+	if (armed >= 0)
+		env_msg_fail_at = armed + 1;
 	for (size_t i = 0; i < len; i++)
 		((u8 *) nni_msg_body(m))[i] = ND(u8);
 	return m;
@@ -104,6 +108,22 @@ kwait_check(void)
 		}
 	}
 }
+/* C20 fault events of a skeleton word (fault pass, -DVH_FAULTPASS): from now on the k-th (0-based) message
+ * allocation / duplication (FM), allocator request (FA), insertion of a new key into an id map (FI) made by the
+ * library fails.  One fault per skeleton. */
+extern int env_alloc_fail_at, env_alloc_count, env_alloc_failed, env_msg_failed, env_idmap_failed;
+extern int env_idmap_fail_at, env_idmap_inserts;
+#define FM(k) if (!kstop) { env_msg_fail_at = env_msg_allocs + (k); }
+#define FA(k) if (!kstop) { env_alloc_fail_at = env_alloc_count + (k); }
+#define FI(k) if (!kstop) { env_idmap_fail_at = env_idmap_inserts + (k); }
+/* the failing call reported NNG_ENOMEM and (as the harness has just checked) changed nothing: from here on the
+ * object must behave as if the call had never been made, so the functional checks apply again in full */
+#define KFAULT_ABSORBED()             \
+	do {                          \
+		env_alloc_failed = 0; \
+		env_msg_failed   = 0; \
+		env_idmap_failed = 0; \
+	} while (0)
 #define KNEED(cond)            \
 	do {                   \
 		if (!(cond)) { \
